@@ -210,3 +210,28 @@ def fixed_letters(pattern):
     from .c16 import oracle_regex
 
     return SymPattern(oracle_regex(pattern)).fixed
+
+
+def concrete_instance(pattern, n):
+    """a concrete word of length n read by the structure pattern from its first letter (wildcard runs padded)"""
+    body = [ch for ch in pattern if ch not in "()"]
+    fixed = sum(1 for i, ch in enumerate(body) if ch != "*" and not (i + 1 < len(body) and body[i + 1] == "*"))
+    pad = n - fixed
+    out, cnt = [], 0
+    i = 0
+    while i < len(body):
+        ch = body[i]
+        star = i + 1 < len(body) and body[i + 1] == "*"
+        reps = 1
+        if star:
+            reps, pad = max(pad, 0), 0
+            i += 1
+        for _ in range(reps):
+            if ch in "ACGT":
+                out.append(ch)
+            else:
+                allowed = _allowed(ch)
+                out.append(allowed[cnt % len(allowed)])
+                cnt += 1
+        i += 1
+    return "".join(out)
